@@ -11,6 +11,8 @@ import (
 	"github.com/medibloc/panacea-core/v2/app"
 )
 
+var genK3 bool
+
 func main() {
 	if len(os.Args) < 2 {
 		fmt.Fprintln(os.Stderr, "usage: hx <profile> [-seed N] [-n N] [-out DIR]")
@@ -24,12 +26,14 @@ func main() {
 	replay := fs.String("replay", "", "replay a history file instead of generating")
 	blocks := fs.Int("blocks", 12, "blocks per history")
 	repo := fs.String("repo", "/repo", "path of the repository (translator)")
+	k3 := fs.Bool("k3", false, "generators also use text that is not valid UTF-8 (known finding K3)")
 	conc := fs.Int("conc", 0, "node profile: number of background query goroutines")
 	must(fs.Parse(os.Args[2:]))
 	if *out == "" {
 		fmt.Fprintln(os.Stderr, "-out required")
 		os.Exit(2)
 	}
+	genK3 = *k3
 	app.SetConfig()
 	switch profile {
 	case "gen":
@@ -44,6 +48,8 @@ func main() {
 		runChainProfile(profileSpec{name: "burn", gen: genBurnHistory, monitors: func() []Monitor { return []Monitor{&burnMonitor{}, &feeMonitor{}} }}, *seed, *n, *out, *replay, *blocks)
 	case "pnft":
 		runChainProfile(profileSpec{name: "pnft", gen: genPnftHistory, monitors: func() []Monitor { return []Monitor{newPnftMonitor(), &feeMonitor{}} }}, *seed, *n, *out, *replay, *blocks)
+	case "conc":
+		runConc(*seed, *n, *out)
 	case "node":
 		runChainProfile(profileSpec{name: "node", gen: genNodeHistory, monitors: func() []Monitor { return nil }, node: true, conc: *conc}, *seed, *n, *out, *replay, *blocks)
 	case "total":
